@@ -3,6 +3,7 @@ package checks
 import (
 	"bytes"
 	"fmt"
+	"strings"
 
 	"verif/mc/drive"
 	"verif/mc/engine"
@@ -25,6 +26,8 @@ var c07SANItems = []refcfg.GeneralName{
 	{Type: "dns", Name: "server.example.com"}, {Type: "dns", Name: "*.example.org"},
 	{Type: "ip", Name: "127.0.0.1"}, {Type: "ip", Name: "255.0.128.7"},
 }
+
+var c07LongMembers = []string{"san-dns", "san-mail", "many-san", "aia-uri", "many-aia", "cps", "notice-text", "notice-org", "many-numbers", "many-policies", "many-eku", "long-oid", "aki-id"}
 
 var c07URIs = []string{"http://ocsp.example.com", "https://o.example.org:8080/path?q=1"}
 var c07EKUs = []string{"serverAuth", "clientAuth", "codeSigning", "emailProtection", "timeStamping", "OCSPSigning", "1.2.3.4.5", "2.16.840.1.113730.4.1"}
@@ -104,6 +107,12 @@ func c07Enumerate(tier string, yield func(any)) {
 		maxEKU = 4
 	}
 	lists(len(c07EKUs), maxEKU, func(l []int) { yield(&c07Case{Kind: "eku", L: append([]int{}, l...)}) })
+	// DER length-form boundaries of every string- and list-valued member
+	for m := range c07LongMembers {
+		for _, l := range []int{100, 118, 120, 122, 123, 124, 125, 126, 127, 128, 129, 130, 131, 200, 250, 252, 253, 254, 255, 256, 257, 258, 300, 1000, 70000} {
+			yield(&c07Case{Kind: "long", A: m, B: l})
+		}
+	}
 	for cr := 0; cr < 3; cr++ {
 		yield(&c07Case{Kind: "aki", A: -1, B: cr})
 		yield(&c07Case{Kind: "aki", A: -1, B: cr, C: 1}) // under a separate issuer
@@ -166,6 +175,61 @@ func c07Exec(x *engine.Ctx, cc any) {
 			l = append(l, pols[i])
 		}
 		e = refcfg.Ext{Kind: refcfg.KCP, CP: &l}
+	case "long":
+		str := func(prefix string) string {
+			if c.B <= len(prefix) {
+				return prefix[:c.B]
+			}
+			return prefix + strings.Repeat("y", c.B-len(prefix))
+		}
+		switch c07LongMembers[c.A] {
+		case "san-dns":
+			e = refcfg.Ext{Kind: refcfg.KSAN, SAN: &[]refcfg.GeneralName{{Type: "dns", Name: str("host.")}}}
+		case "san-mail":
+			e = refcfg.Ext{Kind: refcfg.KSAN, SAN: &[]refcfg.GeneralName{{Type: "dns", Name: "first.example"}, {Type: "mail", Name: str("a@")}, {Type: "ip", Name: "1.2.3.4"}}}
+		case "many-san":
+			l := []refcfg.GeneralName{}
+			for k := 0; k < c.B/12+1; k++ {
+				l = append(l, refcfg.GeneralName{Type: "dns", Name: fmt.Sprintf("h%04d.example", k)})
+			}
+			e = refcfg.Ext{Kind: refcfg.KSAN, SAN: &l}
+		case "aia-uri":
+			e = refcfg.Ext{Kind: refcfg.KAIA, AIA: refcfg.Strs(str("http://ocsp/"), "http://second.example")}
+		case "many-aia":
+			l := []string{}
+			for k := 0; k < c.B/30+1; k++ {
+				l = append(l, fmt.Sprintf("http://ocsp%03d.example", k))
+			}
+			e = refcfg.Ext{Kind: refcfg.KAIA, AIA: &l}
+		case "cps":
+			e = refcfg.Ext{Kind: refcfg.KCP, CP: &[]refcfg.Policy{{Oid: "1.2.3.4", Qualifiers: &[]refcfg.Qualifier{{Cps: refcfg.S(str("http://cps/"))}}}}}
+		case "notice-text":
+			e = refcfg.Ext{Kind: refcfg.KCP, CP: &[]refcfg.Policy{{Oid: "1.2.3.4", Qualifiers: &[]refcfg.Qualifier{{Notice: &refcfg.UserNotice{Text: refcfg.S(str("Notice "))}}}}}}
+		case "notice-org":
+			e = refcfg.Ext{Kind: refcfg.KCP, CP: &[]refcfg.Policy{{Oid: "1.2.3.4", Qualifiers: &[]refcfg.Qualifier{{Notice: &refcfg.UserNotice{Organization: refcfg.S(str("Org ")), Numbers: &[]int{1}}}}}}}
+		case "many-numbers":
+			nums := []int{}
+			for k := 0; k < c.B/3+1; k++ {
+				nums = append(nums, k*37)
+			}
+			e = refcfg.Ext{Kind: refcfg.KCP, CP: &[]refcfg.Policy{{Oid: "1.2.3.4", Qualifiers: &[]refcfg.Qualifier{{Notice: &refcfg.UserNotice{Organization: refcfg.S("Org"), Numbers: &nums}}}}}}
+		case "many-policies":
+			l := []refcfg.Policy{}
+			for k := 0; k < c.B/8+1; k++ {
+				l = append(l, refcfg.Policy{Oid: fmt.Sprintf("1.2.3.%d", 1000+k)})
+			}
+			e = refcfg.Ext{Kind: refcfg.KCP, CP: &l}
+		case "many-eku":
+			l := []string{}
+			for k := 0; k < c.B/8+1; k++ {
+				l = append(l, fmt.Sprintf("1.2.3.4.%d", 1000+k))
+			}
+			e = refcfg.Ext{Kind: refcfg.KEKU, EKU: &l}
+		case "long-oid":
+			e = refcfg.Ext{Kind: refcfg.KEKU, EKU: refcfg.Strs("1.2"+strings.Repeat(".4294967295", c.B/5+1), "serverAuth")}
+		case "aki-id":
+			e = refcfg.Ext{Kind: refcfg.KAKI, AKIBin: refcfg.Bin(bytes.Repeat([]byte{0x77}, c.B))}
+		}
 	case "aia":
 		l := []string{}
 		for _, i := range c.L {
@@ -231,7 +295,7 @@ func init() {
 	register(&engine.Check{
 		ID:          "C07",
 		Level:       "exploration",
-		Rule:        "keyUsage: all 128 flag subsets x critical 3 (written order varied); subjectAlternativeName: all lists of length 0..4 over {mail,dns,ip} x 2 values (1555; thorough 0..5); basicConstraints: ca {omitted,false,true} x pathLen {omitted, 0..255, 256, 65535, 2^31} (780); certificatePolicies: 27 policy shapes (plain, cps, every userNotice combination of organization x numbers x text, two qualifiers), singles and all pairs; authorityInformationAccess: lists 0..3 (thorough 0..5) over 2 URIs; extendedKeyUsage: lists 0..3 (thorough 0..4) over 6 names + 2 OIDs; subjectAlternativeName lists up to 4 (thorough 5); authorityKeyIdentifier: hash (self-signed and under an issuer) and explicit ids of 1,20,32,127,128,768,769,1024 bytes x critical 3; subjectKeyIdentifier hash; ocspNoCheck. Each through a whole run; the emitted body must equal the reference DER encoding written from RFC 5280 / 6960 (DER is canonical, so byte equality = an independent decoder reading back exactly the configured value). non-trivial = distinct case",
+		Rule:        "keyUsage: all 128 flag subsets x critical 3 (written order varied); subjectAlternativeName: all lists of length 0..4 over {mail,dns,ip} x 2 values (1555; thorough 0..5); basicConstraints: ca {omitted,false,true} x pathLen {omitted, 0..255, 256, 65535, 2^31} (780); certificatePolicies: 27 policy shapes (plain, cps, every userNotice combination of organization x numbers x text, two qualifiers), singles and all pairs; authorityInformationAccess: lists 0..3 (thorough 0..5) over 2 URIs; extendedKeyUsage: lists 0..3 (thorough 0..4) over 6 names + 2 OIDs; subjectAlternativeName lists up to 4 (thorough 5); authorityKeyIdentifier: hash (self-signed and under an issuer) and explicit ids of 1,20,32,127,128,768,769,1024 bytes x critical 3; subjectKeyIdentifier hash; ocspNoCheck; every string-, OID- and list-valued member at 25 lengths around the 127/128, 255/256 and 65535/65536 DER length-form boundaries. Each through a whole run; the emitted body must equal the reference DER encoding written from RFC 5280 / 6960 (DER is canonical, so byte equality = an independent decoder reading back exactly the configured value). non-trivial = distinct case",
 		Bound:       map[string]string{"lists": "quick <=3, thorough SAN<=4 AIA<=5 EKU<=4", "pathLen": "0..255 + 3 large"},
 		Assumptions: []string{"a userNotice with neither organization, numbers nor text has no defined encoding and is excluded", "SAN ip octets outside 0..255 are outside the domain (C20 covers the error clause)"},
 		Budget:      budgets(quickBudget, thoroughBudget),
